@@ -78,6 +78,12 @@ def run(ctx):
         if ch.isspace() and ch != " ":
             continue
         texts += ["0x" + ch, "0x" + ch + "1", "0x1" + ch, "0xa" + ch + "2"]
+    # characters whose UTF-8 bytes, or whose code point, alias a hex digit under masking (byte & 0x7f, code & 0xff, code - 0xff00 ...):
+    # U+00B0..B9 and U+00F0..F9 (C2/C3 B0..B9 -> "B0".."C9"), U+0130.., U+0170.., U+01B0.., full-width and mathematical digits, letters
+    for cp in list(range(0xB0, 0xBA)) + list(range(0xF0, 0xFA)) + [0x130, 0x131, 0x139, 0x170, 0x179, 0x1B0, 0x1B9, 0x141, 0x161, 0x430, 0x435, 0xFF10, 0xFF19, 0xFF21, 0xFF26,
+                                                                      0xFF41, 0xFF46, 0x1D7CE, 0x1D7D7, 0x660, 0x669, 0x2460, 0x2170, 0x10A60]:
+        ch = chr(cp)
+        texts += ["0x" + ch, "0x" + ch + "1", "0x1" + ch, "0xa" + ch + "b", ch + "0x1", "0x" + ch * 2]
     texts = list(dict.fromkeys(texts))
     mod = ctx.model(["c18_parse %s" % tx(t) for t in texts], label="C18parse")
     # the parser is only reachable through clap: run `new` with a 2-byte-impossible cost? no: use prefixes directly but with
